@@ -115,7 +115,7 @@ def _valid_z_segment_name(name):
 
 
 def _valid_z_field_name(name):
-    regex = r'^z[a-z1-9]{2}_\d+$'
+    regex = r'^z[a-z0-9]{2}_\d+$'
     return re.match(regex, name, re.IGNORECASE) is not None
 
 
